@@ -15,7 +15,8 @@ Globals == {<<"collections", "OrderedDict">>,     \* built-in
             <<"collections", "deque">>,           \* never added
             <<"fractions", "Fraction">>,          \* new module
             <<"decimal", "Decimal">>,             \* new module
-            <<"verif_sink", "hit">>}              \* never added
+            <<"verif_sink", "hit">>,              \* never added
+            <<"fractions", "Decimal">>}           \* never added: the NAME of one addition under the MODULE of another (it exists there)
 Base0 == {<<"collections", "OrderedDict">>}
 AddSets == <<{}, {<<"fractions", "Fraction">>}, {<<"collections", "Counter">>},
              {<<"fractions", "Fraction">>, <<"collections", "Counter">>, <<"decimal", "Decimal">>}>>
